@@ -132,15 +132,15 @@ impl Model {
 /// Sufficient statistics of one class as stored by the subject (read through the serde image) or
 /// as computed by the reference. `a` = theta | feature_count, `b` = sigma | feature_log_prob.
 #[derive(Clone, Debug, PartialEq)]
-struct ClassStats {
-    count: u64,
-    prior: f64,
-    a: Vec<f64>,
-    b: Vec<f64>,
+pub(crate) struct ClassStats {
+    pub count: u64,
+    pub prior: f64,
+    pub a: Vec<f64>,
+    pub b: Vec<f64>,
 }
-type Stats = BTreeMap<usize, ClassStats>;
+pub(crate) type Stats = BTreeMap<usize, ClassStats>;
 
-fn arr(v: &Value) -> Option<Vec<f64>> {
+pub(crate) fn arr(v: &Value) -> Option<Vec<f64>> {
     // ndarray serde image: {"v":1,"dim":[p],"data":[..]}; non-finite floats arrive as null
     let d = v.get("data")?.as_array()?;
     Some(d.iter().map(|x| x.as_f64().unwrap_or(f64::NAN)).collect())
@@ -148,10 +148,11 @@ fn arr(v: &Value) -> Option<Vec<f64>> {
 
 fn stats_of(m: &Model) -> Option<Stats> {
     let img = m.image();
-    let (ka, kb) = match m {
-        Model::G(_) => ("theta", "sigma"),
-        Model::M(_) => ("feature_count", "feature_log_prob"),
-    };
+    stats_from_image(&img, matches!(m, Model::G(_)))
+}
+
+pub(crate) fn stats_from_image(img: &Value, gaussian: bool) -> Option<Stats> {
+    let (ka, kb) = if gaussian { ("theta", "sigma") } else { ("feature_count", "feature_log_prob") };
     let mut out = Stats::new();
     for (k, v) in img.get("class_info")?.as_object()? {
         let label: usize = k.parse().ok()?;
@@ -185,13 +186,13 @@ fn canon(j: usize, s: &Stats) -> Vec<u8> {
 /// variance (+ var_smoothing * largest population variance of any feature over all rows), or
 /// summed counts and additively smoothed feature frequencies. Also returns the unsmoothed
 /// per-class variances and the largest feature variance (gaussian).
-struct Textbook {
-    stats: Stats,
-    var: BTreeMap<usize, Vec<f64>>,
-    maxvar: f64,
+pub(crate) struct Textbook {
+    pub stats: Stats,
+    pub var: BTreeMap<usize, Vec<f64>>,
+    pub maxvar: f64,
 }
 
-fn pop_var_max(x: &[Vec<f64>]) -> f64 {
+pub(crate) fn pop_var_max(x: &[Vec<f64>]) -> f64 {
     let n = x.len() as f64;
     let p = x[0].len();
     let mut best = 0.0f64;
@@ -203,7 +204,7 @@ fn pop_var_max(x: &[Vec<f64>]) -> f64 {
     best
 }
 
-fn textbook(gaussian: bool, x: &[Vec<f64>], y: &[usize], smoothing: f64) -> Textbook {
+pub(crate) fn textbook(gaussian: bool, x: &[Vec<f64>], y: &[usize], smoothing: f64) -> Textbook {
     let n = x.len();
     let p = x[0].len();
     let maxvar = pop_var_max(x);
@@ -237,7 +238,7 @@ fn textbook(gaussian: bool, x: &[Vec<f64>], y: &[usize], smoothing: f64) -> Text
 }
 
 /// Reference log-posterior (up to the common evidence term) of every class for one query.
-fn posterior(gaussian: bool, s: &Stats, q: &[f64]) -> Vec<(usize, f64)> {
+pub(crate) fn posterior(gaussian: bool, s: &Stats, q: &[f64]) -> Vec<(usize, f64)> {
     s.iter()
         .map(|(c, st)| {
             let mut lp = st.prior.ln();
@@ -258,7 +259,7 @@ fn posterior(gaussian: bool, s: &Stats, q: &[f64]) -> Vec<(usize, f64)> {
 
 /// Is the reference posterior defined (finite) for every query? Gaussian: every smoothed variance
 /// strictly positive. Multinomial: every feature log-probability finite.
-fn posterior_defined(gaussian: bool, s: &Stats) -> bool {
+pub(crate) fn posterior_defined(gaussian: bool, s: &Stats) -> bool {
     s.values().all(|c| {
         c.prior > 0.0
             && c.b.iter().all(|&v| if gaussian { v > 0.0 && v.is_finite() } else { v.is_finite() })
